@@ -1,1 +1,196 @@
-"""stubs"""
+"""encoding/xml, xml-roundtrip-validator, base64, etree serialisation boundary (DESIGN.md section 3.2)."""
+import base64 as pybase64
+import z3
+from ..core import (STUBS, INVOKE_STUBS, FRESH_HOOKS, LAZY_HOOKS, IFACE_CANDS, OPAQUE_IMPLEMENTS, stub, GoPanic, Inconclusive,
+                    PathEnd, zint, zstr, b_and, b_or, b_not, is_sym)
+from ..values import *
+from ..runner import intrinsic
+from .base import reader_content, buffer_string
+
+ETREE = 'github.com/beevik/etree.'
+
+# ------------------------------------------------------------------ tagged byte slices
+
+
+def tag_bytes(I, info, tag='bytes'):
+    """A fresh opaque non-empty byte slice carrying `info` in the ghost state."""
+    ctx = I.ctx
+    p = ctx.alloc((ctx.fresh_int(tag + '.b0', 'uint8'),), tag)
+    ctx.ghost.setdefault('bytes_tag', {})[p.cell] = info
+    return Slice(p, 0, 1, 1)
+
+
+def bytes_info(I, sl):
+    ctx = I.ctx
+    sl = ctx.force(sl)
+    if not isinstance(sl, Slice) or sl.base is None:
+        return None
+    return ctx.ghost.get('bytes_tag', {}).get(sl.base.cell)
+
+
+def string_info(I, s):
+    """Strings converted from tagged bytes keep the tag via a ghost table keyed by the term."""
+    if is_sym(s):
+        return I.ctx.ghost.get('string_tag', {}).get(str(s))
+    return None
+
+
+# ------------------------------------------------------------------ base64 (injective pair)
+
+def _all_conc(elems):
+    return all(isinstance(e, int) for e in elems)
+
+
+def b64_encode(I, elems, url=False):
+    ctx = I.ctx
+    if _all_conc(elems):
+        raw = bytes(elems)
+        return (pybase64.urlsafe_b64encode(raw) if url else pybase64.b64encode(raw)).decode('latin-1')
+    key = ('b64', url, tuple(str(e) for e in elems))
+    cache = ctx.ghost.setdefault('b64cache', {})
+    if key in cache:
+        return cache[key]
+    s = ctx.fresh_str('b64')
+    n = len(elems)
+    ctx.add_inv(z3.Length(s) == 4 * ((n + 2) // 3))
+    cache[key] = s
+    ctx.ghost.setdefault('b64dec', {})[str(s)] = list(elems)
+    return s
+
+
+@stub('(*encoding/base64.Encoding).EncodeToString')
+def base64_encode(I, args, ins):
+    sl = I.ctx.force(args[1])
+    info = bytes_info(I, sl)
+    if info is not None:
+        s = I.ctx.fresh_str('b64')
+        I.ctx.ghost.setdefault('string_tag', {})[str(s)] = ('b64of', info)
+        return s
+    return b64_encode(I, I.slice_elems(sl))
+
+
+@stub('(*encoding/base64.Encoding).DecodeString')
+def base64_decode(I, args, ins):
+    ctx = I.ctx
+    s = args[1]
+    if isinstance(s, str):
+        try:
+            raw = pybase64.b64decode(s.encode('latin-1'), validate=True)
+        except Exception:
+            return TupleV((NIL_SLICE, ctx.new_error('base64', msg='illegal base64 data')))
+        # real DecodeString allocates DecodedLen bytes: capacity may exceed the length by up to 2
+        cap = len(s) // 4 * 3
+        arr = tuple(raw) + (0,) * (cap - len(raw))
+        return TupleV((Slice(ctx.alloc(arr, 'b64dec'), 0, len(raw), max(cap, len(raw))), None))
+    info = string_info(I, s)
+    if info is not None and info[0] == 'b64of':
+        return TupleV((tag_bytes(I, info[1], 'b64dec'), None))
+    dec = ctx.ghost.get('b64dec', {}).get(str(s))
+    if dec is not None:
+        return TupleV((I.make_slice(dec), None))
+    # arbitrary string: fails, or decodes to arbitrary bytes of a case-split length
+    if ctx.choose(2, 'b64fail') == 1:
+        ctx.choice_w['b64fail'] = 1
+        return TupleV((NIL_SLICE, ctx.new_error('base64', msg='illegal base64 data')))
+    hook = ctx.opts.get('b64_lengths')
+    lens = hook if hook else list(range(0, ctx.K + 1))
+    n = lens[ctx.choose(len(lens), 'b64len')]
+    elems = tuple(ctx.fresh_int('b64dec[%d]' % i, 'uint8') for i in range(n))
+    ctx.ghost.setdefault('b64src', {})[str(s)] = elems
+    return TupleV((Slice(ctx.alloc(elems, 'b64dec'), 0, n, n), None))
+
+
+# ------------------------------------------------------------------ xml-roundtrip-validator
+
+XRV = 'github.com/mattermost/xml-roundtrip-validator.'
+
+
+@stub(XRV + 'Validate')
+def xrv_validate(I, args, ins):
+    ctx = I.ctx
+    kind, c = reader_content(I, args[0])
+    key = None
+    if kind == 'bytes':
+        c = ctx.force(c)
+        key = c.base.cell if isinstance(c, Slice) and c.base is not None else None
+    ctx.event('xrv.Validate', key)
+    info = bytes_info(I, c) if kind == 'bytes' else None
+    if info is not None and info[0] in ('marshal', 'serialize'):
+        # bytes produced by a marshaller are well formed
+        ctx.ghost.setdefault('validated', set()).add(key)
+        return None
+    if ctx.choose(2, 'xrv') == 1:
+        return ctx.new_error('xrv', msg='validator: invalid XML')
+    ctx.ghost.setdefault('validated', set()).add(key)
+    return None
+
+
+# ------------------------------------------------------------------ encoding/xml
+
+@intrinsic('verifMarshalXML')
+def i_marshal_xml(I, args, ins):
+    """verifMarshalXML(v): bytes of xml.Marshal(v); Unmarshal into the same type yields an equal value."""
+    ctx = I.ctx
+    v = ctx.force(args[0])
+    if not isinstance(v, Iface):
+        raise Inconclusive('verifMarshalXML argument')
+    if I.prog.kind(v.dyn) == 'ptr':
+        val = ctx.load(ctx.force(v.val))
+        t = I.prog.elem(v.dyn)
+    else:
+        val, t = v.val, v.dyn
+    return tag_bytes(I, ('marshal', t, val), 'xmlbytes')
+
+
+@stub('encoding/xml.Unmarshal')
+def xml_unmarshal(I, args, ins):
+    ctx = I.ctx
+    buf = ctx.force(args[0])
+    tgt = ctx.force(args[1])
+    if not isinstance(tgt, Iface) or I.prog.kind(tgt.dyn) != 'ptr':
+        raise Inconclusive('xml.Unmarshal target %r' % (tgt,))
+    t = I.prog.elem(tgt.dyn)
+    ptr = ctx.force(tgt.val)
+    if ptr is None:
+        return ctx.new_error('xml', msg='non-pointer passed to Unmarshal')
+    info = bytes_info(I, buf)
+    ctx.event('xml.Unmarshal', t, info[0] if info else None)
+    if info is not None and info[0] == 'marshal' and info[1] == t:
+        ctx.store_(ptr, info[2])
+        return None
+    if info is not None and info[0] == 'serialize':
+        r = UNMARSHAL_ELEMENT_HOOK(I, info, t, ptr)
+        if r is not NotImplemented:
+            return r
+    if ctx.choose(2, 'xmlerr') == 1:
+        return ctx.new_error('xml', msg='xml: syntax error')
+    n = ctx.ghost.setdefault('unmarshal_n', [0])
+    n[0] += 1
+    ctx.store_(ptr, ctx.fresh(t, 'xml%d' % n[0]))
+    return None
+
+
+def _no_hook(I, info, t, ptr):
+    return NotImplemented
+
+
+UNMARSHAL_ELEMENT_HOOK = _no_hook
+
+
+@stub('encoding/xml.Marshal', 'encoding/xml.MarshalIndent')
+def xml_marshal(I, args, ins):
+    ctx = I.ctx
+    v = ctx.force(args[0])
+    if isinstance(v, Iface):
+        if I.prog.kind(v.dyn) == 'ptr':
+            p = ctx.force(v.val)
+            val = ctx.load(p) if p is not None else None
+            t = I.prog.elem(v.dyn)
+        else:
+            val, t = v.val, v.dyn
+        return TupleV((tag_bytes(I, ('marshal', t, val), 'xmlbytes'), None))
+    return TupleV((tag_bytes(I, ('marshal', None, None), 'xmlbytes'), None))
+
+
+def install(prog):
+    pass
